@@ -5,7 +5,8 @@
   monomorphic instance declarations `dataTypes` / `codataTypes` (named by the printed type, e.g.
   `List[i64]`).  `TypedM P Γ t τ` says: `t` has type `τ` in `Γ` w.r.t. the instance declarations and the
   definitions of the checked program `P`, and every annotation of `t` (`ty`, `chi`, clause contexts) is
-  the one the derivation dictates.
+  the one the derivation dictates; the clauses of a `case` / `new` are those of the declaration, in
+  declaration order (the checker reorders them).
   Proof file: definitions in `Prop` only, nothing executable.
 -/
 import Scc.Fun2Core.Model
@@ -24,37 +25,42 @@ def codataDecl (P : Fun.CheckedProgram) : Fun.Ty → Option Fun.Codata
   | .i64 => none
   | .decl n a => P.codataTypes.find? fun d => d.name = printTy (.decl n a)
 
+/-- the type is `i64` or has an instance declaration (data or codata) in the checked program -/
+def TyIn (P : Fun.CheckedProgram) (τ : Fun.Ty) : Prop :=
+  τ = .i64 ∨ (dataDecl P τ).isSome = true ∨ (codataDecl P τ).isSome = true
+
 mutual
-  /-- `t` (annotated) has type `τ` in `Γ` -/
+  /-- `t` (annotated) has type `τ` in `Γ`; `τ` is instantiated (`TyIn`) -/
   def TypedM (P : Fun.CheckedProgram) : Fun.Term → Fun.Ctx → Fun.Ty → Prop
     | .var x ty chi, Γ, τ =>
-      ty = some τ ∧ chi = some .prd ∧ ∃ b, lookupCtx Γ x = some b ∧ b.chi = .prd ∧ b.ty = τ
+      TyIn P τ ∧ ty = some τ ∧ chi = some .prd ∧ ∃ b, lookupCtx Γ x = some b ∧ b.chi = .prd ∧ b.ty = τ
     | .lit _, _, τ => τ = .i64
     | .op a _ b, Γ, τ => τ = .i64 ∧ TypedM P a Γ .i64 ∧ TypedM P b Γ .i64
     | .ifc _ a b t e an, Γ, τ =>
-      an = some τ ∧ TypedM P a Γ .i64 ∧ TypedM P b Γ .i64 ∧ TypedM P t Γ τ ∧ TypedM P e Γ τ
-    | .ifz _ a t e an, Γ, τ => an = some τ ∧ TypedM P a Γ .i64 ∧ TypedM P t Γ τ ∧ TypedM P e Γ τ
-    | .print _ a n an, Γ, τ => an = some τ ∧ TypedM P a Γ .i64 ∧ TypedM P n Γ τ
+      TyIn P τ ∧ an = some τ ∧ TypedM P a Γ .i64 ∧ TypedM P b Γ .i64 ∧ TypedM P t Γ τ ∧ TypedM P e Γ τ
+    | .ifz _ a t e an, Γ, τ =>
+      TyIn P τ ∧ an = some τ ∧ TypedM P a Γ .i64 ∧ TypedM P t Γ τ ∧ TypedM P e Γ τ
+    | .print _ a n an, Γ, τ => TyIn P τ ∧ an = some τ ∧ TypedM P a Γ .i64 ∧ TypedM P n Γ τ
     | .letIn x σ b i an, Γ, τ =>
-      an = some τ ∧ TypedM P b Γ σ ∧ TypedM P i (Γ ++ [⟨x, .prd, σ⟩]) τ
+      TyIn P τ ∧ an = some τ ∧ TypedM P b Γ σ ∧ TypedM P i (Γ ++ [⟨x, .prd, σ⟩]) τ
     | .call f args an, Γ, τ =>
-      an = some τ ∧ ∃ d, d ∈ P.defs ∧ d.name = f ∧ d.retTy = τ ∧ ArgsM P args Γ d.ctx
+      TyIn P τ ∧ an = some τ ∧ ∃ d, d ∈ P.defs ∧ d.name = f ∧ d.retTy = τ ∧ ArgsM P args Γ d.ctx
     | .ctor k args an, Γ, τ =>
-      an = some τ ∧ ∃ d c, dataDecl P τ = some d ∧ d.ctors.find? (fun c => c.name = k) = some c ∧
-        ArgsM P args Γ c.args
+      TyIn P τ ∧ an = some τ ∧ ∃ d c, dataDecl P τ = some d ∧
+        d.ctors.find? (fun c => c.name = k) = some c ∧ ArgsM P args Γ c.args
     | .dtor s k _ args an, Γ, τ =>
-      an = some τ ∧ ∃ σ d sg, TypedM P s Γ σ ∧ codataDecl P σ = some d ∧
+      TyIn P τ ∧ an = some τ ∧ ∃ σ d sg, TypedM P s Γ σ ∧ codataDecl P σ = some d ∧
         d.dtors.find? (fun c => c.name = k) = some sg ∧ sg.contTy = τ ∧ ArgsM P args Γ sg.args
     | .case s _ cs an, Γ, τ =>
-      an = some τ ∧ ∃ σ d, TypedM P s Γ σ ∧ dataDecl P σ = some d ∧ ClausesM P cs Γ d.ctors τ ∧
-        ∀ c ∈ d.ctors, c.name ∈ clauseXtors cs
+      TyIn P τ ∧ an = some τ ∧ ∃ σ d, TypedM P s Γ σ ∧ dataDecl P σ = some d ∧
+        ClausesM P cs Γ d.ctors τ ∧ clauseXtors cs = d.ctors.map (·.name)
     | .new cs an, Γ, τ =>
-      an = some τ ∧ ∃ d, codataDecl P τ = some d ∧ CoclausesM P cs Γ d.dtors ∧
-        ∀ c ∈ d.dtors, c.name ∈ clauseXtors cs
-    | .label a t an, Γ, τ => an = some τ ∧ TypedM P t (Γ ++ [⟨a, .cns, τ⟩]) τ
+      TyIn P τ ∧ an = some τ ∧ ∃ d, codataDecl P τ = some d ∧ CoclausesM P cs Γ d.dtors ∧
+        clauseXtors cs = d.dtors.map (·.name)
+    | .label a t an, Γ, τ => TyIn P τ ∧ an = some τ ∧ TypedM P t (Γ ++ [⟨a, .cns, τ⟩]) τ
     | .goto a t an, Γ, τ =>
-      an = some τ ∧ ∃ b, lookupCtx Γ a = some b ∧ b.chi = .cns ∧ TypedM P t Γ b.ty
-    | .exit t an, Γ, τ => an = some τ ∧ TypedM P t Γ .i64
+      TyIn P τ ∧ an = some τ ∧ ∃ b, lookupCtx Γ a = some b ∧ b.chi = .cns ∧ TypedM P t Γ b.ty
+    | .exit t an, Γ, τ => TyIn P τ ∧ an = some τ ∧ TypedM P t Γ .i64
     | .paren t, Γ, τ => TypedM P t Γ τ
   /-- the arguments match the parameter list: a producer parameter takes a term of its type, a consumer
   parameter a covariable (annotated `chi = cns`) of its type -/
@@ -86,11 +92,14 @@ structure DefM (P : Fun.CheckedProgram) (d : Fun.Def) : Prop where
   body : TypedM P d.body d.ctx d.retTy
 
 /-- the checked program is well-typed (monomorphic, annotated): distinct definition names, every
-definition typed, no type name declared both as data and as codata -/
+definition typed, no type name declared both as data and as codata, the constructor / destructor names of
+a declaration pairwise distinct -/
 structure ProgM (P : Fun.CheckedProgram) : Prop where
   defNames : (P.defs.map (·.name)).Nodup
   defs : ∀ d ∈ P.defs, DefM P d
   disjoint : ∀ d ∈ P.dataTypes, ∀ c ∈ P.codataTypes, d.name ≠ c.name
+  ctorsNodup : ∀ d ∈ P.dataTypes, (d.ctors.map (·.name)).Nodup
+  dtorsNodup : ∀ d ∈ P.codataTypes, (d.dtors.map (·.name)).Nodup
 
 /-! ## consequences used by the translation -/
 
@@ -98,24 +107,46 @@ structure ProgM (P : Fun.CheckedProgram) : Prop where
 returns the type of the derivation -/
 theorem getType_of_typed (P : Fun.CheckedProgram) : ∀ (t : Fun.Term) (Γ : Fun.Ctx) (τ : Fun.Ty),
     TypedM P t Γ τ → getType t = some τ
-  | .var _ _ _, _, _, h => by simp only [TypedM] at h; simp [getType, h.1]
+  | .var _ _ _, _, _, h => by simp only [TypedM] at h; simp [getType, h.2.1]
   | .lit _, _, _, h => by simp only [TypedM] at h; simp [getType, h]
   | .op _ _ _, _, _, h => by simp only [TypedM] at h; simp [getType, h.1]
-  | .ifc _ _ _ _ _ _, _, _, h => by simp only [TypedM] at h; simp [getType, h.1]
-  | .ifz _ _ _ _ _, _, _, h => by simp only [TypedM] at h; simp [getType, h.1]
-  | .print _ _ _ _, _, _, h => by simp only [TypedM] at h; simp [getType, h.1]
-  | .letIn _ _ _ _ _, _, _, h => by simp only [TypedM] at h; simp [getType, h.1]
-  | .call _ _ _, _, _, h => by simp only [TypedM] at h; simp [getType, h.1]
-  | .ctor _ _ _, _, _, h => by simp only [TypedM] at h; simp [getType, h.1]
-  | .dtor _ _ _ _ _, _, _, h => by simp only [TypedM] at h; simp [getType, h.1]
-  | .case _ _ _ _, _, _, h => by simp only [TypedM] at h; simp [getType, h.1]
-  | .new _ _, _, _, h => by simp only [TypedM] at h; simp [getType, h.1]
-  | .label _ _ _, _, _, h => by simp only [TypedM] at h; simp [getType, h.1]
-  | .goto _ _ _, _, _, h => by simp only [TypedM] at h; simp [getType, h.1]
-  | .exit _ _, _, _, h => by simp only [TypedM] at h; simp [getType, h.1]
+  | .ifc _ _ _ _ _ _, _, _, h => by simp only [TypedM] at h; simp [getType, h.2.1]
+  | .ifz _ _ _ _ _, _, _, h => by simp only [TypedM] at h; simp [getType, h.2.1]
+  | .print _ _ _ _, _, _, h => by simp only [TypedM] at h; simp [getType, h.2.1]
+  | .letIn _ _ _ _ _, _, _, h => by simp only [TypedM] at h; simp [getType, h.2.1]
+  | .call _ _ _, _, _, h => by simp only [TypedM] at h; simp [getType, h.2.1]
+  | .ctor _ _ _, _, _, h => by simp only [TypedM] at h; simp [getType, h.2.1]
+  | .dtor _ _ _ _ _, _, _, h => by simp only [TypedM] at h; simp [getType, h.2.1]
+  | .case _ _ _ _, _, _, h => by simp only [TypedM] at h; simp [getType, h.2.1]
+  | .new _ _, _, _, h => by simp only [TypedM] at h; simp [getType, h.2.1]
+  | .label _ _ _, _, _, h => by simp only [TypedM] at h; simp [getType, h.2.1]
+  | .goto _ _ _, _, _, h => by simp only [TypedM] at h; simp [getType, h.2.1]
+  | .exit _ _, _, _, h => by simp only [TypedM] at h; simp [getType, h.2.1]
   | .paren t, Γ, τ, h => by
     simp only [TypedM] at h
     simpa [getType] using getType_of_typed P t Γ τ h
+
+/-- the type of a typed term is instantiated -/
+theorem tyIn_of_typed (P : Fun.CheckedProgram) : ∀ (t : Fun.Term) (Γ : Fun.Ctx) (τ : Fun.Ty),
+    TypedM P t Γ τ → TyIn P τ
+  | .var _ _ _, _, _, h => by simp only [TypedM] at h; exact h.1
+  | .lit _, _, _, h => by simp only [TypedM] at h; exact .inl h
+  | .op _ _ _, _, _, h => by simp only [TypedM] at h; exact .inl h.1
+  | .ifc _ _ _ _ _ _, _, _, h => by simp only [TypedM] at h; exact h.1
+  | .ifz _ _ _ _ _, _, _, h => by simp only [TypedM] at h; exact h.1
+  | .print _ _ _ _, _, _, h => by simp only [TypedM] at h; exact h.1
+  | .letIn _ _ _ _ _, _, _, h => by simp only [TypedM] at h; exact h.1
+  | .call _ _ _, _, _, h => by simp only [TypedM] at h; exact h.1
+  | .ctor _ _ _, _, _, h => by simp only [TypedM] at h; exact h.1
+  | .dtor _ _ _ _ _, _, _, h => by simp only [TypedM] at h; exact h.1
+  | .case _ _ _ _, _, _, h => by simp only [TypedM] at h; exact h.1
+  | .new _ _, _, _, h => by simp only [TypedM] at h; exact h.1
+  | .label _ _ _, _, _, h => by simp only [TypedM] at h; exact h.1
+  | .goto _ _ _, _, _, h => by simp only [TypedM] at h; exact h.1
+  | .exit _ _, _, _, h => by simp only [TypedM] at h; exact h.1
+  | .paren t, Γ, τ, h => by
+    simp only [TypedM] at h
+    exact tyIn_of_typed P t Γ τ h
 
 /-- a typed term is not a covariable argument (`arguments.rs` takes the producer branch) -/
 theorem covarArg_of_typed (P : Fun.CheckedProgram) {t : Fun.Term} {Γ : Fun.Ctx} {τ : Fun.Ty}
@@ -123,7 +154,7 @@ theorem covarArg_of_typed (P : Fun.CheckedProgram) {t : Fun.Term} {Γ : Fun.Ctx}
   cases t with
   | var x ty chi =>
     simp only [TypedM] at h
-    obtain ⟨_, rfl, _⟩ := h
+    obtain ⟨_, _, rfl, _⟩ := h
     rfl
   | _ => rfl
 
